@@ -1081,7 +1081,7 @@ func (c *Ctx) BuildScript(assumptions []*Term, goal *Term, getValues []*Term, op
 		}
 		sb.usedFns[name] = true
 		d := c.funcs[name]
-		if d.Body != nil && !opts.Opaque[name] {
+		if d.Body != nil && !opts.isOpaque(name) {
 			// a recursive function's own name is already marked, so the recursion terminates
 			collect(d.Body)
 		}
@@ -1142,13 +1142,13 @@ func (c *Ctx) BuildScript(assumptions []*Term, goal *Term, getValues []*Term, op
 	// functions: uninterpreted first, then defined in dependency order (fnOrder is post-order)
 	for _, n := range fnOrder {
 		d := c.funcs[n]
-		if d.Body == nil || opts.Opaque[n] {
+		if d.Body == nil || opts.isOpaque(n) {
 			fmt.Fprintf(&out, "(declare-fun %s (%s) %s)\n", symName(n), sortList(d.Params), d.Ret)
 		}
 	}
 	for _, n := range fnOrder {
 		d := c.funcs[n]
-		if d.Body == nil || opts.Opaque[n] {
+		if d.Body == nil || opts.isOpaque(n) {
 			continue
 		}
 		var ps []string
@@ -1203,6 +1203,19 @@ func (c *Ctx) BuildScript(assumptions []*Term, goal *Term, getValues []*Term, op
 type ScriptOpts struct {
 	Opaque map[string]bool // defined functions to be treated as uninterpreted
 	Header string
+}
+
+// isOpaque: Opaque is keyed by the Go name of the spec function; SMT names are spec_<pkg>_<name>.
+func (o ScriptOpts) isOpaque(smtName string) bool {
+	if o.Opaque[smtName] {
+		return true
+	}
+	for k := range o.Opaque {
+		if strings.HasPrefix(smtName, "spec_") && strings.HasSuffix(smtName, "_"+k) {
+			return true
+		}
+	}
+	return false
 }
 
 func sortList(ss []Sort) string {
